@@ -15,7 +15,7 @@ func init() {
 			"non-trivial = non-zero value with a non-empty encoding",
 		Assumptions: []string{"the reference encoder (ref.EncTop) is written from README/wire.go doc comments/golden files and must reproduce all 19 golden files before any verdict",
 			"key-before-value inside a map entry is kept as plenc writes it (README: proto-encoded maps are not readable)"},
-		Pre:  func(string) error { return ref.CheckGolden(mc.RepoDir) },
+		Pre: func(string) error { return ref.CheckGolden(mc.RepoDir) },
 		Work: func(c *mc.Ctx) {
 			enumItems(c, withRecursive(ref.Universe(c.Tier)), c02Case)
 			// the encoding must not depend on which types the instance built before
